@@ -254,7 +254,7 @@ B_ = "ghedesigner.borehole_heat_exchangers"
 contract(f"{B_}:GHEDesignerBoreholeBase.compute_reynolds", dict(m_flow_pipe=Real, r_in=Real, fluid=ObjOf("fluid", rho=Real, mu=Real)), inline=True)
 contract(f"{OM}.get_timestep_str", dict(load_method=Const(EnumVal("TimestepType", "HYBRID", 2))), inline=True)
 contract(f"{B_}:SingleUTube.calc_effective_borehole_resistance", dict(self=ObjOf(f"{B_}:SingleUTube")), returns=Real, notes="abstract: pygfunction (A-DET)",
-         name=f"{B_}:SingleUTube.calc_effective_borehole_resistance#abstract").applies = lambda env: "g_rb" not in env["self"].fields
+         name=f"{B_}:SingleUTube.calc_effective_borehole_resistance#abstract").applies = lambda env: "g_rb" not in env["self"].fields and "g_rd_kg" not in env["self"].fields
 contract("ghedesigner.gfunction:GFunction.g_function_interpolation", dict(self=ObjOf("ghedesigner.gfunction:GFunction"), b_over_h=Real),
          returns=TupleOf(ListOf(Real), Real, Real, Real), notes="abstract here; C11", name="ghedesigner.gfunction:GFunction.g_function_interpolation#abstract").applies = lambda env: "log_time" not in env["self"].fields
 
